@@ -539,6 +539,13 @@ Proof. split; reflexivity. Qed.
 Lemma same_mode_trans a b c : same_mode a b -> same_mode b c -> same_mode a c.
 Proof. intros [A1 A2] [B1 B2]. split; congruence. Qed.
 
+(* what may follow a separator run: not a `/`, and not an escaped `\/` either (both are swallowed by consume_path_sep) *)
+Definition nosep_head (r : str) : bool :=
+  match r with
+  | c :: r' => negb (N.eqb c 47) && negb (N.eqb c 92 && match r' with c2 :: _ => N.eqb c2 47 | [] => false end)
+  | [] => true
+  end.
+
 Section PathText.
   Variable cf : cfg.
   Hypothesis Hpath : c_pathname cf = true.
@@ -674,12 +681,17 @@ Section PathText.
     rewrite (sequence_plain_path st (i + 1) neg l r Hp Hne). reflexivity.
   Qed.
 
-  Lemma skip_slashes_noslash r i : (match r with c :: _ => negb (N.eqb c 47) | [] => true end) = true ->
+  Lemma skip_slashes_noslash r i : nosep_head (r) = true ->
     skip_slashes r i = {| idx := i; rest := r |}.
-  Proof. destruct r as [|c r]; intros H; [reflexivity|]. cbn. unfold cSL. apply negb_true_iff in H. rewrite H. reflexivity. Qed.
+  Proof.
+    destruct r as [|c r]; intros H; [reflexivity|]. cbn [skip_slashes]. unfold nosep_head in H.
+    apply andb_true_iff in H. destruct H as [H1 H2]. apply negb_true_iff in H1. apply negb_true_iff in H2.
+    unfold cSL, cBS. rewrite H1. destruct (N.eqb c 92); [|reflexivity]. cbn [andb] in H2.
+    destruct r as [|c2 r2]; [reflexivity|]. rewrite H2. reflexivity.
+  Qed.
 
   Lemma pstep_sep f st i r cur :
-    inv_ext st = 0 -> (match r with c :: _ => negb (N.eqb c 47) | [] => true end) = true ->
+    inv_ext st = 0 -> nosep_head (r) = true ->
     root_loop (S f) cf st {| idx := i; rest := 47%N :: r |} cur =
     root_loop f cf (update_dir_state (set_matchbase (set_start_dir st) false)) {| idx := i + 1; rest := r |}
               (T (xprint xSep) :: cur).
@@ -695,10 +707,17 @@ Section PathText.
   Proof. intros [A [B D]]. unfold update_dir_state. cbn. repeat split; assumption. Qed.
 
   Lemma punparse_head t ts tail : pwf (t :: ts) = true -> tail_ok tail = true ->
-    (match unparse (t :: ts) ++ tail with c :: _ => negb (N.eqb c 47) | [] => true end) = true.
+    nosep_head (unparse (t :: ts) ++ tail) = true.
   Proof.
-    intros W _. destruct t as [c|c| | |neg l]; cbn in *; try reflexivity.
-    apply andb_true_iff in W. destruct W as [W _]. apply andb_true_iff in W. destruct W as [_ W]. exact W.
+    intros W _. destruct t as [c|c| | |neg l]; try reflexivity.
+    - cbn [pwf] in W. apply andb_true_iff in W. destruct W as [W _]. apply andb_true_iff in W. destruct W as [Wp Wc].
+      cbn [unparse flat_map unparse1 app nosep_head]. rewrite Wc. cbn [andb].
+      assert (E : N.eqb c 92 = false).
+      { unfold plain in Wp. cbn in Wp. destruct (N.eqb c 92); [|reflexivity]. rewrite !orb_true_r in Wp. discriminate. }
+      rewrite E. reflexivity.
+    - cbn [pwf] in W. apply andb_true_iff in W. destruct W as [We _]. cbn [unparse flat_map unparse1 app nosep_head].
+      change (N.eqb 92 47) with false. change (N.eqb 92 92) with true. cbn [negb andb].
+      unfold escapable in We. cbn in We. destruct (N.eqb c 47); [discriminate|reflexivity].
   Qed.
 
   Lemma head_not_star_tail ts tail : pwf ts = true -> tail_ok tail = true ->
@@ -793,7 +812,7 @@ Section PathText.
   Definition seg_wf (sg : list tok) : bool := pwf sg && match sg with [] => false | _ => true end.
 
   Lemma punparse_head_noslash sg rest : seg_wf sg = true ->
-    (match punparse (sg :: rest) with c :: _ => negb (N.eqb c 47) | [] => true end) = true.
+    nosep_head (punparse (sg :: rest)) = true.
   Proof.
     intros W. apply andb_true_iff in W. destruct W as [W Hne]. destruct sg as [|t ts]; [discriminate|].
     destruct rest as [|sg2 rest'].
@@ -863,7 +882,8 @@ Proof.
   destruct (punparse (sg :: rest)) as [|d r] eqn:E.
   - exfalso. apply andb_true_iff in W. destruct W as [_ Wn]. destruct sg as [|t ts]; [discriminate|].
     destruct rest; cbn [punparse] in E; destruct t; cbn in E; discriminate.
-  - exists d, r. split; [reflexivity|]. apply negb_true_iff in H. apply N.eqb_neq in H. exact H.
+  - exists d, r. split; [reflexivity|]. unfold nosep_head in H. apply andb_true_iff in H. destruct H as [H _].
+    apply negb_true_iff in H. apply N.eqb_neq in H. exact H.
 Qed.
 
 Theorem wcparse_path flags isb segs :
